@@ -201,11 +201,8 @@ Init == /\ tid \in 1..Len(Cases)
         /\ st = [ok |-> TRUE, why |-> "", a |-> IdMap(Len(Cases[tid].heap0)), l |-> EmptyMap]
         /\ verdict = [s |-> "run"]
 
-RECURSIVE SkipO(_, _)
-SkipO(mm, ll) == IF ll <= Len(Evs) /\ Evs[ll].e = "o" /\ ~NeedsOracle(mm) THEN SkipO(mm, ll + 1) ELSE ll
-
 Advance ==
-    LET l1 == SkipO(m, l)
+    LET l1 == l
         need == NeedsOracle(m)
         haveO == l1 <= Len(Evs) /\ Evs[l1].e = "o"
         orc == IF need /\ haveO THEN TransOrc(Evs[l1].orc, st) ELSE NoOrc
@@ -225,7 +222,7 @@ Advance ==
                           ELSE IF m2.ctl.t = "badoracle" THEN [s |-> "rejected", l |-> l1, why |-> m2.ctl.why, spec |-> <<>>]
                           ELSE IF pv # "" THEN [s |-> "rejected", l |-> r.l - 1, why |-> "property " \o pv, spec |-> <<>>]
                           ELSE IF m2.ctl.t = "halt"
-                          THEN (IF SkipO(m2, r.l) = Len(Evs) + 1 THEN [s |-> "accepted", l |-> r.l]
+                          THEN (IF r.l = Len(Evs) + 1 THEN [s |-> "accepted", l |-> r.l]
                                 ELSE [s |-> "rejected", l |-> r.l, why |-> "recorded trace continues after the specification halted", spec |-> <<>>])
                           ELSE [s |-> "run"]
 
